@@ -76,6 +76,10 @@ pub struct ApiPlan {
     /// of other samples (A, B, A, A); per-sample contig order and first-seen sample order are kept
     #[serde(default)]
     pub interleave_seed: Option<u64>,
+    /// push an EMPTY contig (no bases) before the n-th regular push, for each n listed (C05 only:
+    /// a contig of size zero is a legal queue item; the round-trip checks do not use this)
+    #[serde(default)]
+    pub empty_contigs_before: Vec<u32>,
 }
 
 /// Push order of (sample index, contig index) for the library-API driver.
@@ -208,7 +212,7 @@ pub fn generate_api(run_seed: u64, oversize_pct: u64) -> PipeSpec {
     // own stream: existing run indices keep their other dimensions
     let mut ri = Rng::new(run_seed ^ 0x1EAF_A91);
     let interleave_seed = if ri.pct(15) { Some(ri.next()) } else { None };
-    spec.api = Some(ApiPlan { calls, concatenated, adaptive, interleave_seed });
+    spec.api = Some(ApiPlan { calls, concatenated, adaptive, interleave_seed, empty_contigs_before: Vec::new() });
     spec
 }
 
@@ -404,6 +408,10 @@ pub fn api_body(cfg: &PipeCfg, plan: &ApiPlan, w: &Workload) -> CreateResult {
     for (si, ci) in push_order(plan, w) {
         let s = &w.samples[si];
         let (name, codes) = &s.contigs[ci];
+        let empties = plan.empty_contigs_before.iter().filter(|&&x| x == n).count();
+        for e in 0..empties {
+            c.push(s.name.clone(), format!("empty_{n}_{e}"), Vec::new()).map_err(|e| format!("{e:#}"))?;
+        }
         c.push(s.name.clone(), name.trim().to_string(), codes.clone()).map_err(|e| format!("{e:#}"))?;
         n += 1;
         run_calls(&c, n)?;
